@@ -308,7 +308,7 @@ REDUCTIONS = {
 
 
 def r5_reductions(repo: Repo, rep):
-    R = rep.rule("R-C04-5", "documented reductions: PINN-type = mean of SquaredError, mean/Deep-Ritz = mean of identity; SquaredError = sum of squares over axis 1; "
+    R = rep.rule("R-C04-5", "documented reductions: PINN-type = mean of SquaredError, mean/Deep-Ritz = mean of identity; SquaredError = sum of squares over the last axis; "
                  "data conditions = |model - target|, max for 'inf', mean(a**norm) else, root last", floor=9,
                  why="the loss a user reads in the documentation is what the optimiser must minimise")
     for cname, (mod, err, red) in REDUCTIONS.items():
@@ -363,9 +363,21 @@ def r5_reductions(repo: Repo, rep):
         if p.ret is RAISE:
             continue
         t = dump(p.ret).replace(" ", "")
-        okforms = (f"torch.sum(torch.square({x}),dim=1)", f"torch.sum({x}**2,dim=1)", f"torch.square({x}).sum(dim=1)", f"({x}**2).sum(dim=1)",
-                   f"{x}.pow(2).sum(1)", f"{x}.pow(2).sum(dim=1)", f"torch.sum(torch.square({x}),1)", f"torch.sum({x}*{x},dim=1)", f"torch.sum(torch.pow({x},2),dim=1)")
-        rep.check(R, t in okforms, fw.site(), fw.fq, "SquaredError.forward = sum(x**2, dim=1)", t, t)
+        # structural: a sum over ONE axis of the element-wise square of the input, and that axis is the last one (the components) -
+        # axis 1 is the component axis only for (points, components) residuals; DeepONet / integro residuals are (functions, points, components)
+        r = p.ret
+        ok_sum = isinstance(r, ast.Call) and attr_chain(r.func) == "torch.sum" and r.args
+        axis = kwarg(r, "dim", 1) if ok_sum else None
+        if ok_sum and axis is None:
+            axis = kwarg(r, "axis")
+        sq = r.args[0] if ok_sum else None
+        squared = sq is not None and ((isinstance(sq, ast.BinOp) and isinstance(sq.op, ast.Pow) and dump(sq.left) == x and dump(sq.right) == "2")
+                                      or (isinstance(sq, ast.BinOp) and isinstance(sq.op, ast.Mult) and dump(sq.left) == dump(sq.right) == x)
+                                      or (isinstance(sq, ast.Call) and attr_chain(sq.func) in ("torch.square", "torch.pow") and sq.args and dump(sq.args[0]) == x))
+        rep.check(R, bool(ok_sum and squared and axis is not None), fw.site(), fw.fq, "SquaredError.forward = sum(x**2, dim=<one axis>)", t, t)
+        if ok_sum and squared and axis is not None:
+            rep.check(R, dump(axis) == "-1", fw.site(), fw.fq, "the squares are summed over the last axis (components), whatever the number of batch axes",
+                      f"dim={dump(axis)}: for (functions, points, components) residuals axis 1 are the points", f"SquaredError over axis {dump(axis)}")
     # data conditions
     cond = repo.cls(f"{COND}.Condition")
     for ci in repo.subclasses(cond):
@@ -508,8 +520,8 @@ _C = "src/torchphysics/problem/conditions/condition.py"
 _P = "src/torchphysics/problem/spaces/points.py"
 _FW = "        x_coordinates, x = x.track_coord_gradients()\n\n        data = {}\n        for fun in self.data_functions:\n            data[fun] = self.data_functions[fun](x_coordinates)\n\n        y = self.module(x)\n\n        unreduced_loss = self.error_fn(\n            self.residual_fn(\n                {**y.coordinates, **x_coordinates, **self.parameter.coordinates, **data}"
 MUTANTS = [
-    dict(id="C04-M1", file=_C, old="        return torch.sum(torch.square(x), dim=1)", new="        return torch.mean(torch.square(x), dim=1)", rule="R-C04-5", what="mean over components"),
-    dict(id="C04-M2", file=_C, old="        return torch.sum(torch.square(x), dim=1)", new="        return torch.sum(torch.square(x), dim=0)", rule="R-C04-5", what="sum over points"),
+    dict(id="C04-M1", file=_C, old="        return torch.sum(torch.square(x), dim=-1)", new="        return torch.mean(torch.square(x), dim=-1)", rule="R-C04-5", what="mean over components"),
+    dict(id="C04-M2", file=_C, old="        return torch.sum(torch.square(x), dim=-1)", new="        return torch.sum(torch.square(x), dim=0)", rule="R-C04-5", what="sum over points"),
     dict(id="C04-M3", file=_C, old=_FW, new=_FW.replace("**self.parameter.coordinates, ", ""), rule="R-C04-3", what="parameters dropped from the residual"),
     dict(id="C04-M4", file=_C, old=_FW, new=_FW.replace("        y = self.module(x)\n", "        y = self.module(self.sampler.sample_points(device=device))\n"), rule=None, rules=["R-C04-1", "R-C04-2"], what="model evaluated on a second draw"),
     dict(id="C04-M5", file=_C, old=_FW, new=_FW.replace("x_coordinates, x = x.track_coord_gradients()", "x_original = x\n        x_coordinates, x = x.track_coord_gradients()").replace("y = self.module(x)", "y = self.module(x_original)"), rule="R-C04-2", what="model gets the untracked points"),
